@@ -125,6 +125,10 @@ def one(ctx, rng, xr):
     kw = dict(dset_lons=ds["lon"].values.copy(), dset_lats=ds["lat"].values.copy()) if pre else {}
     key = "%s|stations=%s:%s|dset=%s|query=%s%s|tol=%g|pre=%s|hist=%s" % (method, kind, sdt, dconv, qconv, ":offlattice" if offlat else "", tol, pre, hist)
     det = {"station_lon": dlon, "station_lat": slat, "query_lon": qlon, "query_lat": qlat, "tolerance": tol, "method": method}
+    if rng.random() < 0.2:
+        # dask-backed station dataset (as opened from a file with chunks); positions stay in memory
+        ds["efth"] = ds["efth"].chunk({"site": int(rng.integers(1, n + 1))} if rng.random() < 0.7 else {})
+        key += "|dask"
     # the query is handed over as lists or as numpy arrays the caller keeps
     as_arrays = bool(rng.random() < 0.5)
     qarg = (np.array(qlon, dtype="float64"), np.array(qlat, dtype="float64")) if as_arrays else (list(qlon), list(qlat))
@@ -277,6 +281,18 @@ def idw(rec, key, det, ds, slon, slat, qlon, qlat, qconv, tol, kw, rng, E, qarg)
     if amb:
         rec.skip("idw", "a station at exactly the tolerance or a tie at the max_sites cut")
         return
+    gap = None
+    if rng.random() < 0.25:
+        # a missing record (time 1) at one station: wherever that station is used, the combination is missing at that time
+        gap = int(rng.integers(len(slon)))
+        E = E.copy()
+        E[1, gap] = np.nan
+        if hasattr(ds["efth"].data, "dask"):
+            import dask.array as dsa
+            ds["efth"] = (ds["efth"].dims, dsa.from_array(E, chunks=ds["efth"].data.chunksize))
+        else:
+            ds["efth"] = (ds["efth"].dims, E)
+        key += "|gap"
     try:
         r = ds.spec.sel(*qarg, method="idw", tolerance=tol, max_sites=ms, **kw)
     except Exception as e:
@@ -293,7 +309,7 @@ def idw(rec, key, det, ds, slon, slat, qlon, qlat, qconv, tol, kw, rng, E, qarg)
             ref = sum(wi * E[:, i] for wi, i in zip(w, ids))
             good = close(got[k], ref, 1e-9)[0] if kind != "exact" else False
             if kind == "exact":
-                good = any(np.array_equal(got[k], E[:, i]) for i in ids)
+                good = any(np.array_equal(got[k], E[:, i], equal_nan=True) for i in ids)
         if not good:
             dn = np.sqrt((to360(slon) - to360(qlon[k])) ** 2 + (slat - qlat[k]) ** 2)
             on = [i for i in np.argsort(dn, kind="stable") if dn[i] <= tol][:ms]
